@@ -7,6 +7,7 @@ mod util;
 mod img_streams;
 mod geom;
 mod sectorops;
+mod cross;
 
 fn main() {
     std::panic::set_hook(Box::new(|_| {}));
@@ -34,6 +35,9 @@ fn dispatch(toks: &[&str]) -> String {
     match toks[0] {
         "enc62" | "enc53" | "dec62" | "dec53" | "trk" => img_streams::dispatch(toks),
         "sectorops" => sectorops::run(toks),
+        "dpbinfo" => { let d = a2kit::bios::dpb::DiskParameterBlock::create(&geom::kind_of(toks[2])); format!("{} {} {} {} {} {}",d.bsh,d.off,d.dsm,d.drm,d.exm,d.spt) },
+        "cells" => cross::cells(toks),
+        "cross" => cross::cross(toks),
         _ => format!("unsupported:{}",toks[0])
     }
 }
